@@ -112,6 +112,11 @@ class C02(Check):
         many = proc.default_cfg(counts=[17, 17, 0, 0, 17])
         many["imsi"] = "208930000000001"
         cfgs.append(many)
+        # a SUPI ending in 0000: the session identity derived from it is 0 (part of the recorded finding "outside 1..15"); it
+        # must be the same 0 in every message of every procedure
+        zero = proc.default_cfg(counts=[2, 2, 2, 2, 2])
+        zero["imsi"] = "208930000010000"
+        cfgs.append(zero)
         # one configuration whose session identity exceeds 255 (recorded finding): IMSI ...0300
         big = proc.default_cfg(counts=[1, 1, 0, 0, 0])
         big["imsi"] = "208930000000300"
